@@ -64,6 +64,10 @@ type vpOp struct {
 	JitterUS int              `json:"jitter_us,omitempty"`
 	CancelUS int              `json:"cancel_us,omitempty"` // alloc: cancel the request after this many microseconds (0 = never)
 	Faults   []cloudsim.Fault `json:"faults,omitempty"`
+	// Stale (alloc): the pod holds nothing, but its stored record survived its DEL (the pool
+	// release is followed by the record delete, which failed): the request names the
+	// interface and addresses of that record, as daemon.setRequest fills them in
+	Stale bool `json:"stale,omitempty"`
 }
 
 type vpScenario struct {
@@ -178,6 +182,9 @@ func vpGenOp(t *rapid.T, mode string) vpOp {
 	switch o.Kind {
 	case "alloc", "release":
 		o.Pod = rapid.IntRange(0, vpPods-1).Draw(t, "pod")
+		if o.Kind == "alloc" {
+			o.Stale = rapid.IntRange(0, 3).Draw(t, "stale") == 0
+		}
 	case "slowrelease":
 		o.Pod = rapid.IntRange(0, vpPods-1).Draw(t, "pod")
 		o.A = rapid.IntRange(0, vpPods-1).Draw(t, "otherpod")
@@ -285,6 +292,7 @@ type vpWorld struct {
 	lateWorker      bool
 	cancelledCreate bool
 	staleRelease    bool
+	staleRecord     bool
 	slowRelease     bool
 	repeatAlloc     bool
 	allocOK, allocErr, allocTimeout int
@@ -665,6 +673,17 @@ func (w *vpWorld) doAlloc(o vpOp) {
 		// known finding: excluded by construction so that the search continues behind it
 		w.flag(func() { w.knownSkipped++ })
 		return
+	}
+	if held == nil && o.Stale {
+		w.mu.Lock()
+		last := w.lastRes[pid]
+		w.mu.Unlock()
+		if last != nil {
+			req.NetworkInterfaceID = last.ENI.ID
+			req.IPv4 = last.IP.IPv4
+			req.IPv6 = last.IP.IPv6
+			w.flag(func() { w.staleRecord = true })
+		}
 	}
 	if held != nil {
 		// exactly what daemon.AllocIP does through setRequest for a pod with a stored record
@@ -1582,6 +1601,9 @@ func (w *vpWorld) report(c *vt.Ctx) {
 	}
 	if w.staleRelease {
 		c.Label("stale-release")
+	}
+	if w.staleRecord {
+		c.Label("add-with-stale-record")
 	}
 	if w.slowRelease {
 		c.Label("del-held-between-two-interfaces")
